@@ -1,3 +1,5 @@
+mod conc;
+mod crash;
 mod determinism;
 mod driver;
 mod gen;
